@@ -578,6 +578,7 @@ func (P *Prover) karrRewrite(p Poly, blk *ssa.BasicBlock) Poly {
 			fmt.Printf("   row %s\n", P.show(q))
 		}
 	}
+	gone := map[string]bool{} // eliminated so far: a later substitution must not bring them back
 	for round := 0; round < 4; round++ {
 		first := map[string]bool{}
 		for m := range out {
@@ -598,6 +599,9 @@ func (P *Prover) karrRewrite(p Poly, blk *ssa.BasicBlock) Poly {
 			t.add(r, first)
 		}
 		changed := false
+		if P.trace {
+			fmt.Printf("   first=%v pivots=%v\n", first, t.piv)
+		}
 		for i, r := range t.rows {
 			pv := t.piv[i]
 			c, has := out[pv]
@@ -617,11 +621,17 @@ func (P *Prover) karrRewrite(p Poly, blk *ssa.BasicBlock) Poly {
 				}
 				sub[k] = -v.Num().Int64()
 			}
+			for k := range sub {
+				if gone[k] {
+					okRow = false
+				}
+			}
 			if !okRow {
 				continue
 			}
 			delete(out, pv)
 			out = out.add(sub, c)
+			gone[pv] = true
 			changed = true
 		}
 		if !changed {
